@@ -367,9 +367,30 @@ SET_SEQ_TRIAGED = {
 }
 
 
-def _is_set_expr(e):
-    return (isinstance(e, ast.Call) and isinstance(e.func, ast.Name) and e.func.id in ('set', 'frozenset') and e.args) or \
-        isinstance(e, ast.SetComp) or (isinstance(e, ast.Set))
+def _is_set_expr(e, setvars=()):
+    if (isinstance(e, ast.Call) and isinstance(e.func, ast.Name) and e.func.id in ('set', 'frozenset') and e.args) or \
+            isinstance(e, ast.SetComp) or isinstance(e, ast.Set):
+        return True
+    if isinstance(e, ast.Name) and e.id in setvars:
+        return True
+    # filter()/map() hand the elements on in the iteration order of their argument
+    if isinstance(e, ast.Call) and isinstance(e.func, ast.Name) and e.func.id in ('filter', 'map') and len(e.args) == 2:
+        return _is_set_expr(e.args[1], setvars)
+    return False
+
+
+def _set_locals(f):
+    """locals bound exactly once, to an in-place set"""
+    cnt, isset = {}, {}
+    for a in stmts_in(f, (ast.Assign, ast.AugAssign)):
+        tg = a.targets if isinstance(a, ast.Assign) else [a.target]
+        for t in tg:
+            for x in ast.walk(t):
+                if isinstance(x, ast.Name):
+                    cnt[x.id] = cnt.get(x.id, 0) + 1
+                    if isinstance(a, ast.Assign) and x is t and _is_set_expr(a.value):
+                        isset[x.id] = True
+    return {k for k in isset if cnt.get(k) == 1}
 
 
 def rule_e(repo, chk):
@@ -381,15 +402,19 @@ def rule_e(repo, chk):
         for q, f in sorted(mod.defs.items()):
             if not isinstance(f, FUNC_TYPES):
                 continue
+            sv = _set_locals(f)
             for node in own_nodes(f):
                 hit = None
                 if isinstance(node, ast.Call) and isinstance(node.func, ast.Name) and node.func.id in ('list', 'tuple', 'enumerate', 'iter', 'reversed') \
-                        and node.args and _is_set_expr(node.args[0]):
+                        and node.args and _is_set_expr(node.args[0], sv):
                     hit, conv = node.args[0], node
-                elif isinstance(node, (ast.For, ast.comprehension)) and _is_set_expr(node.iter):
+                elif isinstance(node, (ast.For, ast.comprehension)) and _is_set_expr(node.iter, sv):
                     hit, conv = node.iter, node
-                elif isinstance(node, ast.Starred) and _is_set_expr(node.value) and isinstance(node.ctx, ast.Load):
+                elif isinstance(node, ast.Starred) and _is_set_expr(node.value, sv) and isinstance(node.ctx, ast.Load):
                     hit, conv = node.value, node
+                elif isinstance(node, ast.Call) and isinstance(node.func, ast.Attribute) and node.func.attr == 'join' and node.args \
+                        and _is_set_expr(node.args[0], sv):
+                    hit, conv = node.args[0], node
                 if hit is None:
                     continue
                 n += 1
